@@ -166,7 +166,11 @@ def handle (st : St) (fam : String) (rhs : String) : P Out := do
     let (y, mo, d, h, mi, s, ns) ← fields7
     let m := findDateTime y mo d h mi s ns st.zone
     let sh (l : List Found) : String :=
-      s!"{showFoundList l} U {showOptDt (listUnique l)} E {showOptDt (listEarliest l)} X {showOptDt (listLatest l)}"
+      let own := l.filterMap (fun f => match f with
+        | .normal x => some (showTz showLtt (st.zone.findLocalTimeType x.unixTime))
+        | _ => none)
+      let ownS := match own with | [] => "" | _ => " " ++ " | ".intercalate own
+      s!"{showFoundList l} U {showOptDt (listUnique l)} E {showOptDt (listEarliest l)} X {showOptDt (listLatest l)} ## L{ownS}"
     pure { model := showTz sh m, oracles := Spec.findOracles st.zone y mo d h mi s ns rhsToks }
   | "findn" =>
     let n ← nat
